@@ -92,9 +92,26 @@ pub struct Shared {
     pub max_off: u64,
     pub sink: Vec<u8>,
     pub flushes: u64,
+    pub ops: u64,
 }
 
 pub type Sh = Arc<Mutex<Shared>>;
+
+/// Bumped by every source / sink operation and by every successful call of the object under test: the watchdog of
+/// hostile.rs reports a case as spinning when the process burns CPU while this counter stands still.
+pub static PROGRESS: std::sync::atomic::AtomicU64 = std::sync::atomic::AtomicU64::new(0);
+
+#[inline]
+pub fn progress() {
+    PROGRESS.fetch_add(1, std::sync::atomic::Ordering::Relaxed);
+}
+
+/// Source operations (reads + seeks) a reader may issue on an input of `len` bytes before it is reported as spinning:
+/// the byte-wise readers need about one call per input byte.
+pub fn op_budget(len: usize) -> u64 {
+    64 * len as u64 + 200_000
+}
+pub const OPS_MARK: &str = "VH-SOURCE-OP-BUDGET";
 
 pub fn shared(log_cap: usize) -> Sh {
     Arc::new(Mutex::new(Shared { log_cap, ..Default::default() }))
@@ -136,6 +153,12 @@ impl Read for FaultSource {
         let mut s = sh.lock().unwrap();
         let call = s.calls;
         s.calls += 1;
+        s.ops += 1;
+        progress();
+        if s.ops > op_budget(self.data.len()) {
+            drop(s);
+            panic!("{}", OPS_MARK);
+        }
         if s.err_delivered.is_some() {
             s.calls_after_err += 1;
         }
@@ -214,6 +237,12 @@ impl Seek for FaultSource {
     fn seek(&mut self, to: SeekFrom) -> io::Result<u64> {
         let sh = self.sh.clone();
         let mut s = sh.lock().unwrap();
+        s.ops += 1;
+        progress();
+        if s.ops > op_budget(self.data.len()) {
+            drop(s);
+            panic!("{}", OPS_MARK);
+        }
         let off = self.pos;
         let new = match to {
             SeekFrom::Start(p) => p as i128,
@@ -255,6 +284,7 @@ impl Write for FaultSink {
         let mut s = sh.lock().unwrap();
         let call = s.calls;
         s.calls += 1;
+        progress();
         if s.err_delivered.is_some() {
             s.calls_after_err += 1;
         }
